@@ -121,7 +121,9 @@ def run_case(case, acc, order):
                                 orig = np.random.choice
                                 np.random.choice = owned
                                 try:
-                                    r = sel(count, list(clist), subset_chunks=sub_chunks,
+                                    cl_arg = [list(clist), np.array(clist, dtype=np.int64),
+                                              tuple(clist)][opi % 3]     # the id list in any container
+                                    r = sel(count, cl_arg, subset_chunks=sub_chunks,
                                             subset_spikes=None if subset is None
                                             else np.array(subset, dtype=np.int64))
                                 except Exception as e:
